@@ -355,7 +355,7 @@ def enum_paths(body, cap=20000, prune=True, prog=None, func=None, inline=True):
             return None
         if any(isinstance(a, ast.Starred) for a in c.args):
             return None
-        if Inliner.simple_expr(f) is not None and not isinstance(s, ast.Expr):
+        if Inliner.simple_expr(f) is not None and not isinstance(s, ast.Expr) and not any(isinstance(n, ast.IfExp) for n in ast.walk(f.node)):
             return None       # expression-level inlining handles it during substitution
         return c, f
 
@@ -724,7 +724,7 @@ def walk_path(path, params=(), init_env=None, kill_attr_on_call=None, prog=None,
         if f is None:
             return None
         body = Inliner.simple_expr(f)
-        if body is None:
+        if body is None or any(isinstance(n, ast.IfExp) for n in ast.walk(f.node)):
             return None
         ps = list(f.params)
         if f.cls and ps and ps[0] == "self" and not any("staticmethod" in d for d in f.decorators):
